@@ -1399,4 +1399,109 @@ example : IterListCfg (.map [(.str "os", .str "linux"), (.str "services", .list 
   subst hm
   constructor <;> intro x hx <;> simp [getKey, Y.pyEq, Y.toRat?] at hx <;> subst hx <;> simp [NotStrMap, Y.isStr, Y.isMap]
 
+
+/-! ### the data-building helpers of `_parse_hosts` -/
+
+theorem flagSet_fresh (d : List (Y × Bool)) (k : Y) (v : Bool) (h : d.any (fun p => p.1.pyEq k) = false) :
+    PyRt.flagSet d k v = d ++ [(k, v)] := by
+  unfold PyRt.flagSet; simp [h]
+
+/-- filling a flag dictionary from a duplicate-free name list, in order -/
+theorem fold_flagSet (l : List Y) (f : Y → Bool) (h : noDupY l = true) (pre : List Y)
+    (hpre : ∀ x ∈ pre, pyIn x l = false) :
+    l.foldl (fun d k => PyRt.flagSet d k (f k)) (pre.map fun k => (k, f k)) = (pre ++ l).map fun k => (k, f k) := by
+  induction l generalizing pre with
+  | nil => simp
+  | cons y ys ih =>
+    simp only [noDupY, Bool.and_eq_true, Bool.not_eq_true'] at h
+    have hfresh : (pre.map fun k => (k, f k)).any (fun p => p.1.pyEq y) = false := by
+      rw [List.any_map]
+      apply List.any_eq_false.mpr
+      intro x hx
+      have := hpre x hx
+      simp only [pyIn, List.any_cons, Bool.or_eq_false_iff] at this
+      simpa using this.1
+    rw [List.foldl_cons, flagSet_fresh _ _ _ hfresh]
+    have : (pre.map fun k => (k, f k)) ++ [(y, f y)] = (pre ++ [y]).map fun k => (k, f k) := by simp
+    rw [this, ih h.2 (pre ++ [y])]
+    · simp
+    · intro x hx
+      rcases List.mem_append.mp hx with hx | hx
+      · have := hpre x hx
+        simp only [pyIn, List.any_cons, Bool.or_eq_false_iff] at this
+        exact this.2
+      · simp only [List.mem_singleton] at hx
+        subst hx
+        exact h.1
+
+theorem forEach_flagSet (l : List Y) (f : Y → Bool) (h : noDupY l = true) :
+    PyRt.forEach (β := Empty) l ([] : List (Y × Bool)) (fun k d => .next (PyRt.flagSet d k (f k))) =
+      .next (l.map fun k => (k, f k)) := by
+  rw [forEach_next]
+  have := fold_flagSet l f h [] (by simp)
+  simpa using this
+
+theorem map_pair_eq_zip {α β : Type} (l : List α) (g : α → β) : l.map (fun k => (k, g k)) = l.zip (l.map g) := by
+  induction l with
+  | nil => rfl
+  | cons x xs ih => simp [ih]
+
+/-- `_construct_host_config`: the three name → flag dictionaries are the scenario's name lists, in order, each name
+flagged by the configuration (`parseHost`'s `os` / `services` / `processes`) -/
+theorem Src_construct_host_config (osl svl prl : List Y) (m : List (Y × Y)) (key : Y) (sens : List ((Nat × Nat) × Rat))
+    (ho : noDupY osl = true) (hs : noDupY svl = true) (hp : noDupY prl = true)
+    (hsl : ∀ x, getKey m "services" = some x → x.isList = true)
+    (hpl : ∀ x, getKey m "processes" = some x → x.isList = true) :
+    let r := SrcLoad.ScenarioLoader._construct_host_config osl svl prl (.map m)
+    let h := parseHost osl svl prl sens key (.map m)
+    r.1 = osl.zip h.os ∧ r.2.1 = svl.zip h.services ∧ r.2.2 = prl.zip h.processes := by
+  intro r h
+  have hr : r = (osl.map (fun k => (k, k.pyEq (PyRt.ymapGet (.map m) "os"))),
+      svl.map (fun k => (k, PyRt.yContains (PyRt.ymapGet (.map m) "services") k)),
+      prl.map (fun k => (k, PyRt.yContains (PyRt.ymapGet (.map m) "processes") k))) := by
+    show SrcLoad.ScenarioLoader._construct_host_config osl svl prl (.map m) = _
+    unfold SrcLoad.ScenarioLoader._construct_host_config
+    simp only [forEach_flagSet osl _ ho, forEach_flagSet svl _ hs, forEach_flagSet prl _ hp]
+  have hc : ∀ (k : String) (x : Y), (∀ y, getKey m k = some y → y.isList = true) →
+      PyRt.yContains (PyRt.ymapGet (.map m) k) x = pyIn x (listOf ((getKey m k).getD .null)) := by
+    intro k x hl
+    rw [ymapGet_map]
+    cases hg : getKey m k with
+    | none => rfl
+    | some y =>
+      have := hl y hg
+      cases y <;> simp_all [Y.isList, PyRt.yContains, listOf]
+  rw [hr]
+  refine ⟨?_, ?_, ?_⟩
+  · simp only [map_pair_eq_zip]
+    rfl
+  · simp only [map_pair_eq_zip]
+    show svl.zip _ = svl.zip (svl.map fun s => pyIn s (listOf ((getKey m "services").getD .null)))
+    congr 1
+    apply List.map_congr_left
+    intro x _
+    exact hc "services" x hsl
+  · simp only [map_pair_eq_zip]
+    show prl.zip _ = prl.zip (prl.map fun s => pyIn s (listOf ((getKey m "processes").getD .null)))
+    congr 1
+    apply List.map_congr_left
+    intro x _
+    exact hc "processes" x hpl
+
+/-- `_get_host_value`: the sensitive value if the address is a sensitive host, else the configured value, else 0 -/
+theorem Src_get_host_value (sens : List ((Nat × Nat) × Rat)) (a b : Nat) (m : List (Y × Y)) :
+    SrcLoad.ScenarioLoader._get_host_value sens ((a : Int), (b : Int)) (.map m) =
+      (match sens.lookup (a, b) with
+       | some v => v
+       | none => ((getKey m "value").bind Y.toRat?).getD 0) := by
+  unfold SrcLoad.ScenarioLoader._get_host_value
+  simp only [PyRt.sensHas, PyRt.sensGet, Int.toNat_natCast, ymapHas_map, ymapGet_map, PyRt.yfloat]
+  rcases (by cases hh : sens.lookup (a, b) <;> simp : sens.lookup (a, b) = none ∨ ∃ v, sens.lookup (a, b) = some v)
+    with h | ⟨v, h⟩
+  · simp only [h]
+    rcases (by cases hh : getKey m "value" <;> simp : getKey m "value" = none ∨ ∃ v, getKey m "value" = some v)
+      with h2 | ⟨v, h2⟩
+    · simp [h2, Y.toRat?]
+    · simp [h2]
+  · simp [h]
 end NASim
